@@ -1,9 +1,12 @@
 (* C09: rcu_radixtree is an exact map over all 64-bit keys, with stable addresses and ordered iteration.
    Model: Radix/RadixModel.v (the code as it is in /repo after the D03 fix); definitions used in the statements:
    K64 = 2^64 (RadixBits), Good s M = heap invariant + mask/slot consistency + (forall k < 2^64, find s k = Ok (M k)),
-   gset/ghost_step/pre_ok/res_ok/valid/safe_outcome (RadixHist). *)
+   gset/ghost_step/pre_ok/res_ok/safe_outcome (RadixHist), Full s M = Good s M + parent pointers mirror the links (RadixShape),
+   valid_all/res_full/iter_ok (RadixFull).  A history is a list of OFind / OFoi / OInsert / OErase / OIter. *)
 From Coq Require Import List NArith Bool.
-From FV Require Import Common.EventLog Radix.RadixModel Radix.RadixBits Radix.RadixInv Radix.RadixSpec Radix.RadixHist.
+From Coq Require Import Sorting.Sorted.
+From FV Require Import Common.EventLog Radix.RadixModel Radix.RadixBits Radix.RadixInv Radix.RadixSpec Radix.RadixHist
+  Radix.RadixShape Radix.RadixFull.
 Import ListNotations.
 Local Open Scope N_scope.
 
@@ -16,35 +19,36 @@ Theorem C09_idx_of_is_mod : forall k d, d <= 15 -> idx_of k d = Ok (k / 16 ^ (16
 Proof. exact idx_of_ok. Qed.
 Print Assumptions C09_idx_of_is_mod.
 
-(* --- no undefined behaviour: on every history (keys < 2^64) of find / find_or_insert / insert / erase, whatever the
-   arguments, the run ends Ok or in one of the documented precondition assertions (insert of a present key, erase of an
-   absent key).  In particular: no pfx_of/idx_of call shifts by >= 64 (UB UShift), the case-2 loop never runs out of
-   fuel and the three assertions after it (d > p->depth, d < s->depth, the indices differ) never fire. *)
+(* --- no undefined behaviour: on every history (keys < 2^64) of find / find_or_insert / insert / erase / iterate,
+   whatever the arguments, the run ends Ok or in one of the documented precondition assertions (insert of a present
+   key, erase of an absent key).  In particular: no pfx_of/idx_of call shifts by >= 64 (UB UShift), no loop runs out of
+   its fuel (17 for the depth loops), the case-2 loop stops with d < s->depth and the three assertions after it never
+   fire, no static_cast is wrong, first_leaf/next_leaf never hit their assertions. *)
 Theorem C09_no_ub : forall esz lsz ops,
-  Forall op_keys_ok ops -> Forall (fun o => is_iter o = false) ops ->
-  safe_outcome (run_ops esz lsz st0 ops).
-Proof. intros esz lsz ops. exact (history_safe esz lsz ops st0 gempty Good_st0). Qed.
+  Forall op_keys_ok ops -> safe_outcome (run_ops esz lsz st0 ops).
+Proof. intros esz lsz ops. exact (history_safe_all esz lsz ops st0 gempty Full_st0). Qed.
 Print Assumptions C09_no_ub.
 
 (* --- the tree refines the ghost map: after every history that respects the documented preconditions, for every
    k < 2^64, find k = M k *)
 Theorem C09_refines_map : forall esz lsz ops,
-  valid esz lsz st0 gempty ops ->
-  exists s M, run_ghost esz lsz st0 gempty ops = Ok (s, M) /\ Good s M /\
+  valid_all esz lsz st0 gempty ops ->
+  exists s M, run_ghost esz lsz st0 gempty ops = Ok (s, M) /\ Full s M /\
               forall k, k < K64 -> find s k = Ok (M k).
 Proof.
-  intros esz lsz ops V. destruct (history_refines esz lsz ops st0 gempty Good_st0 V) as (s & M & R & G).
-  exists s, M. split; [exact R|]. split; [exact G|]. exact (g_find _ _ G).
+  intros esz lsz ops V. destruct (history_refines_all esz lsz ops st0 gempty Full_st0 V) as (s & M & R & G).
+  exists s, M. split; [exact R|]. split; [exact G|]. exact (g_find _ _ (proj1 G)).
 Qed.
 Print Assumptions C09_refines_map.
 
-(* --- one step from any good state: results are those of the map; find_or_insert returns the present address with
-   false, or a fresh address (not the address of any present key) with true; never a second address *)
+(* --- one step from any reachable state: results are those of the map; find_or_insert returns the present address
+   with false, or a fresh address (not the address of any present key) with true; never a second address;
+   iteration is described by iter_ok *)
 Theorem C09_step_semantics : forall esz lsz s M o,
-  Good s M -> op_keys_ok o -> is_iter o = false ->
-  (exists s' r, step_op esz lsz s o = Ok (s', r) /\ Good s' (ghost_step M o r) /\ res_ok M o r) \/
+  Full s M -> op_keys_ok o ->
+  (exists s' r, step_op esz lsz s o = Ok (s', r) /\ Full s' (ghost_step M o r) /\ res_full M o r) \/
   (~ pre_ok M o /\ exists w, step_op esz lsz s o = AssertStop w /\ pre_assert w).
-Proof. exact step_safe. Qed.
+Proof. exact step_full. Qed.
 Print Assumptions C09_step_semantics.
 
 Theorem C09_find_or_insert : forall esz lsz s M k v, Good s M -> k < K64 ->
@@ -61,17 +65,26 @@ Theorem C09_addresses_injective : forall s k k' a, Inv_s s -> k < K64 -> k' < K6
 Proof. exact find_inj. Qed.
 Print Assumptions C09_addresses_injective.
 
-(* --- address stability: whatever else is inserted or erased (or looked up), a present key keeps its address *)
+(* --- address stability: whatever else is inserted, erased, looked up or iterated, a present key keeps its address *)
 Theorem C09_address_stable : forall esz lsz s M o s' r k a,
-  Good s M -> op_keys_ok o -> is_iter o = false -> k < K64 -> M k = Some a ->
+  Full s M -> op_keys_ok o -> k < K64 -> M k = Some a ->
   step_op esz lsz s o = Ok (s', r) -> o <> OErase k -> find s' k = Ok (Some a).
-Proof. exact step_address_stable. Qed.
+Proof. exact step_address_stable_all. Qed.
 Print Assumptions C09_address_stable.
+
+(* --- iteration (begin / operator++ through the parent pointers): the iterator sequence l is the list of addresses
+   of exactly the present keys, once each, in ascending key order:
+   there is a strictly ascending list ks of keys, containing exactly the present keys, with map M ks = map Some l *)
+Theorem C09_iteration_sorted : forall s M, Full s M ->
+  exists l, iterate s = Ok l /\
+    exists ks, StronglySorted N.lt ks /\ (forall k, In k ks <-> k < K64 /\ M k <> None) /\ map M ks = map Some l.
+Proof. exact iterate_full. Qed.
+Print Assumptions C09_iteration_sorted.
 
 (* --- non-vacuity *)
 Definition ex_ops : list op :=
-  [OInsert 5 1; OInsert 1152921504606846981 2 (* 0x1000000000000005 *); OFoi 18446744073709551615 3; OFind 5;
-   OErase 5; OFoi 5 4; OFoi 5 6; OInsert 21 7].
+  [OInsert 5 1; OInsert 1152921504606846981 2 (* 0x1000000000000005 *); OFoi 18446744073709551615 3; OFind 5; OIter;
+   OErase 5; OIter; OFoi 5 4; OFoi 5 6; OInsert 21 7; OIter].
 
 Example C09_ex_run :
   match run_ghost 1 2 st0 gempty ex_ops with
@@ -82,14 +95,22 @@ Example C09_ex_run :
 Proof. vm_compute. reflexivity. Qed.
 
 Ltac valid_step :=
-  cbn [valid]; split; [vm_compute; reflexivity|]; split; [reflexivity|]; split; [vm_compute; try reflexivity; try discriminate|];
+  cbn [valid_all]; split; [vm_compute; try reflexivity; exact I|]; split; [vm_compute; try reflexivity; try discriminate; try exact I|];
   intros ? ? E; vm_compute in E; injection E as <- <-.
 
-Example C09_ex_valid : valid 1 2 st0 gempty ex_ops.
+Example C09_ex_valid : valid_all 1 2 st0 gempty ex_ops.
 Proof. unfold ex_ops. repeat valid_step. exact I. Qed.
 
-Example C09_ex_no_ub_hyps : Forall op_keys_ok ex_ops /\ Forall (fun o => is_iter o = false) ex_ops.
-Proof. split; repeat constructor. Qed.
+Example C09_ex_no_ub_hyps : Forall op_keys_ok ex_ops.
+Proof. repeat constructor. Qed.
+
+(* the iterator sequence of the example: 5 (node 0 slot 5), 21 (node 4 slot 5), 0x1000000000000005 (node 1 slot 5), 2^64-1 *)
+Example C09_ex_iterate :
+  match run_ops 1 2 st0 ex_ops with
+  | Ok s => iterate s = Ok [(0%nat, 5); (4%nat, 5); (1%nat, 5); (3%nat, 15)]
+  | _ => False
+  end.
+Proof. vm_compute. reflexivity. Qed.
 
 (* D03 regression: the two keys differ in the top nibble; the older one is still found (the unfixed code lost it) *)
 Example C09_ex_d03 :
